@@ -366,15 +366,16 @@ func rewriteSelect(s *ast.SelectStmt) ast.Stmt {
 	pick := tmp("i")
 	sw.Tag = pick
 	assign := &ast.AssignStmt{Lhs: []ast.Expr{pick}, Tok: token.DEFINE, Rhs: []ast.Expr{call("Select", args...)}}
-	fb := &ast.IfStmt{
-		Cond: &ast.BinaryExpr{X: pick, Op: token.EQL, Y: &ast.UnaryExpr{Op: token.SUB, X: &ast.BasicLit{Kind: token.INT, Value: "2"}}},
-		Body: &ast.BlockStmt{List: []ast.Stmt{
-			&ast.AssignStmt{Lhs: []ast.Expr{pick}, Tok: token.ASSIGN, Rhs: []ast.Expr{call("RealSelect", args...)}},
-		}},
-	}
+	// -2 = no controlled execution is active (harness set-up, free-running parts): run the ORIGINAL
+	// select (its comm statements were protected from rewriting, its bodies are the rewritten ones).
+	// A readiness-polling fallback would race with uncontrolled senders.
+	sw.Body.List = append(sw.Body.List, &ast.CaseClause{
+		List: []ast.Expr{&ast.UnaryExpr{Op: token.SUB, X: &ast.BasicLit{Kind: token.INT, Value: "2"}}},
+		Body: []ast.Stmt{s},
+	})
 	sw.Body.List = append(sw.Body.List, &ast.CaseClause{Body: []ast.Stmt{
 		&ast.ExprStmt{X: &ast.CallExpr{Fun: ast.NewIdent("panic"), Args: []ast.Expr{&ast.BasicLit{Kind: token.STRING, Value: `"vsched: bad select index"`}}}}}})
-	list := append(pre, assign, fb, sw)
+	list := append(pre, assign, sw)
 	return &ast.BlockStmt{List: list}
 }
 
